@@ -60,22 +60,28 @@ def body(ctx, cfg):
         ap = {t[1]: g for t, g, _ in run.applied if t[0] == n}
         prev_apply = 0       # entry time
         quiet_since = False
-        calls = {c['poll']['call']: c for c in p.ncalls}
-        k = 0
+        anchor = None        # front at the first poll after a quiet run
         for q in p.polls:
             if q['cond'] is False:
                 quiet_since = True
+                anchor = None
                 continue
+            if quiet_since and anchor is None:
+                # a quiet process was advanced with the clock: at its next
+                # poll (invoked or deferred) its front is the clock
+                contiguous.append(EQ(q['front'], q['g']))
+                anchor = q['front']
             if q['call'] is None:
-                continue
+                continue         # deferred: polled, not invoked
             c = p.ncalls[q['call']]
             if c['k'] in ap:
                 ln.append(EQ(c['ts'], ap[c['k']] - c['start']))
             if quiet_since:
-                contiguous.append(EQ(c['start'], c['g']))
+                contiguous.append(EQ(c['start'], anchor))
             else:
                 contiguous.append(EQ(c['start'], prev_apply))
             quiet_since = False
+            anchor = None
             prev_apply = ap.get(c['k'], prev_apply)
         if cfg['cond'] == 'none':
             total.append(EQ(SUM([c['ts'] for c in p.ncalls]), G))
